@@ -37,6 +37,9 @@ Section ExprInd.
   Hypothesis Heq : forall a b, P a -> P b -> P (EEq a b).
   Hypothesis Ht : forall e n, P e -> P (ETest e n).
   Hypothesis Hf : forall e n kw, P e -> Forall (fun ke => P (snd ke)) kw -> P (EFilter e n kw).
+  Hypothesis Hbin : forall op a b, P a -> P b -> P (EBin op a b).
+  Hypothesis Hneg : forall e, P e -> P (ENeg e).
+  Hypothesis Htern : forall c a b, P c -> P a -> P b -> P (ETernary c a b).
   Fixpoint expr_ind' (e : expr) : P e :=
     match e with
     | EConst v => Hc v
@@ -55,6 +58,9 @@ Section ExprInd.
                | [] => Forall_nil _
                | ke :: t => Forall_cons ke (expr_ind' (snd ke)) (go t)
                end) kw)
+    | EBin op a b => Hbin op a b (expr_ind' a) (expr_ind' b)
+    | ENeg e => Hneg e (expr_ind' e)
+    | ETernary c a b => Htern c a b (expr_ind' c) (expr_ind' a) (expr_ind' b)
     end.
 End ExprInd.
 
@@ -385,6 +391,37 @@ Section Sim.
     Lemma run_Equal f pc b stk l sv c o x y : nth_error ch pc = Some Equal ->
       R (S f) pc (mk b (y :: x :: stk) l sv c) o = R f (S pc) (mk b (VBool (w_eq wd x y) :: stk) l sv c) o.
     Proof. intros H. run1 H. Qed.
+
+    Lemma run_binop f pc b stk l sv c o x y op : nth_error ch pc = Some (binop_instr op) ->
+      R (S f) pc (mk b (y :: x :: stk) l sv c) o
+      = match binop_result wd op x y with
+        | ROk r => R f (S pc) (mk b (r :: stk) l sv c) o
+        | RErr _ => RFail ErrRender
+        end.
+    Proof.
+      intros H. cbn [run]. rewrite H. destruct op; cbn [binop_instr binop_result pop2 stack mk].
+      1-4,6-7: (destruct (negb (is_number x)); [reflexivity|]; destruct (negb (is_number y)); [reflexivity|];
+                match goal with |- context [w_math wd ?i ?u ?v] => destruct (w_math wd i u v) end; reflexivity).
+      - destruct (is_number x && is_number y); [|reflexivity]. destruct (w_math wd Plus x y); reflexivity.
+      - destruct (w_cmp wd x y); reflexivity.
+      - destruct (w_cmp wd x y); reflexivity.
+      - destruct (w_cmp wd x y); reflexivity.
+      - destruct (w_cmp wd x y); reflexivity.
+      - reflexivity.
+      - reflexivity.
+      - destruct (w_contains wd y x); reflexivity.
+    Qed.
+
+    Lemma run_Negative f pc b stk l sv c o v : nth_error ch pc = Some Negative ->
+      R (S f) pc (mk b (v :: stk) l sv c) o
+      = match neg_result wd v with
+        | ROk r => R f (S pc) (mk b (r :: stk) l sv c) o
+        | RErr _ => RFail ErrRender
+        end.
+    Proof.
+      intros H. cbn [run]. rewrite H. cbn [pop1 stack mk]. unfold neg_result.
+      destruct (w_negate wd v); reflexivity.
+    Qed.
 
     Lemma run_JumpIfFalseOrPop f pc b stk l sv c o v t : nth_error ch pc = Some (JumpIfFalseOrPop t) ->
       R (S f) pc (mk b (v :: stk) l sv c) o
@@ -766,6 +803,54 @@ Section Sim.
         destruct (apply_filter B n v kws) as [r|x]; [|eapply steps_fails; [exact IHe|exact F]].
         eapply steps_trans; [exact IHe|]. rewrite !app_length. cbn [length].
         stepspos F.
+      - (* EBin *)
+        cbn [wf_expr compile_expr] in *. apply andb_prop in Hwf as [Hw1 Hw2].
+        apply code_at_app in Hc as [Hc1 Hc2]. apply code_at_app in Hc2 as [Hc2 Hc3].
+        apply code_at_cons in Hc3 as [Hi _].
+        specialize (IHe1 lex pc b stk l sv c o Hw1 Hlex Hfr Hpar Hc1). cbn [eval].
+        destruct (eval B e1 (absE b l sv)) as [v1|x]; [|exact IHe1].
+        specialize (IHe2 lex _ b (v1 :: stk) l sv c o Hw2 Hlex Hfr Hpar Hc2).
+        destruct (eval B e2 (absE b l sv)) as [v2|x]; [|eapply steps_fails; [exact IHe1|exact IHe2]].
+        change (b_binop B op v1 v2) with (binop_result wd op v1 v2).
+        rewrite !app_length. cbn [length].
+        destruct (binop_result wd op v1 v2) as [r|x] eqn:Er.
+        + eapply steps_trans; [exact IHe1|]. eapply steps_step; [exact IHe2|]. intros fu.
+          erewrite run_binop by exact Hi. rewrite Er. runpos.
+        + eapply steps_fails; [exact IHe1|]. eapply steps_fail1; [exact IHe2|]. intros fu.
+          erewrite run_binop by exact Hi. rewrite Er. reflexivity.
+      - (* ENeg *)
+        cbn [wf_expr compile_expr] in *. apply code_at_app in Hc as [Hc1 Hc2]. apply code_at_cons in Hc2 as [Hi _].
+        specialize (IHe lex pc b stk l sv c o Hwf Hlex Hfr Hpar Hc1). cbn [eval].
+        destruct (eval B e (absE b l sv)) as [v|x]; [|exact IHe].
+        change (b_neg B v) with (neg_result wd v).
+        rewrite app_length. cbn [length].
+        destruct (neg_result wd v) as [r|x] eqn:Er.
+        + eapply steps_step; [exact IHe|]. intros fu. erewrite run_Negative by exact Hi. rewrite Er. runpos.
+        + eapply steps_fail1; [exact IHe|]. intros fu. erewrite run_Negative by exact Hi. rewrite Er. reflexivity.
+      - (* ETernary *)
+        cbn [wf_expr compile_expr] in *. apply andb_prop in Hwf as [Hw Hw3]. apply andb_prop in Hw as [Hw1 Hw2].
+        apply code_at_app in Hc as [Hc1 Hc2]. apply code_at_app in Hc2 as [Hj1 Hc2]. apply code_at_cons in Hj1 as [Hj1 _].
+        apply code_at_app in Hc2 as [Hc2 Hc3]. apply code_at_app in Hc3 as [Hj2 Hc3]. apply code_at_cons in Hj2 as [Hj2 _].
+        cbn [length] in *.
+        specialize (IHe1 lex pc b stk l sv c o Hw1 Hlex Hfr Hpar Hc1). cbn [eval].
+        destruct (eval B e1 (absE b l sv)) as [v|x]; [|exact IHe1].
+        rewrite !app_length. cbn [length].
+        destruct (is_truthy v) eqn:Et.
+        + assert (S1 : steps pc (mk b stk l sv c) o (pc + length (compile_expr pc e1) + 1) (mk b stk l sv c) o).
+          { eapply steps_step; [exact IHe1|]. intros fu. erewrite run_PopJumpIfFalse by exact Hj1. rewrite Et. runpos. }
+          specialize (IHe2 lex _ b stk l sv c o Hw2 Hlex Hfr Hpar Hc2).
+          destruct (eval B e2 (absE b l sv)) as [v2|x]; [|eapply steps_fails; [exact S1|exact IHe2]].
+          eapply steps_trans; [exact S1|]. eapply steps_step; [exact IHe2|]. intros fu.
+          erewrite run_Jump by exact Hj2. runpos.
+        + assert (S1 : steps pc (mk b stk l sv c) o
+                         (pc + length (compile_expr pc e1) + 1 + length (compile_expr (pc + length (compile_expr pc e1) + 1) e2) + 1)
+                         (mk b stk l sv c) o).
+          { eapply steps_step; [exact IHe1|]. intros fu. erewrite run_PopJumpIfFalse by exact Hj1. rewrite Et. runpos. }
+          match type of Hc3 with code_at ?q _ =>
+            replace q with (pc + length (compile_expr pc e1) + 1 + length (compile_expr (pc + length (compile_expr pc e1) + 1) e2) + 1) in Hc3 by lia end.
+          specialize (IHe3 lex _ b stk l sv c o Hw3 Hlex Hfr Hpar Hc3).
+          destruct (eval B e3 (absE b l sv)) as [v3|x]; [|eapply steps_fails; [exact S1|exact IHe3]].
+          eapply steps_trans; [exact S1|]. stepspos IHe3.
     Qed.
 
 
